@@ -18,26 +18,30 @@ V(kind, s, more) == [prop |-> "C02", kind |-> kind, trace |-> s.tr, at |-> s.at]
 Q(s, pid) == IF pid \in DOMAIN s.exp THEN s.exp[pid] ELSE <<>>
 
 OnUnit(s, e) ==
-  LET add == [k \in DOMAIN e.items |-> e.items[k] @@ [lastpkt |-> e.lastpkt, unit |-> e.id]]
+  LET add == [k \in DOMAIN e.items |-> e.items[k] @@ [lastpkt |-> e.lastpkt, unit |-> e.id, opt |-> e.opt]]
   IN [s EXCEPT !.exp = SetFn(s.exp, e.pid, Q(s, e.pid) \o add)]
+
+\* items of a PMT-PID unit that started before its PAT was complete are optional (a receiver cannot know the PID is a PMT PID
+\* yet): they may be skipped, delivered late, or delivered
+Matches(w, e) == IF w.k = "pes" THEN e.kind = "pes" /\ e.len = w.len /\ e.pdg = w.pdg ELSE e.kind = w.k /\ e.ident = w.ident
+RECURSIVE SkipOpt(_, _)
+SkipOpt(q, e) == IF q # <<>> /\ Head(q).opt /\ ~Matches(Head(q), e) THEN SkipOpt(Tail(q), e) ELSE q
 
 OnDeliver(s, e, i) ==
   LET s0 == [s EXCEPT !.at = i]
-      q == Q(s, e.pid)
-  IN IF q = <<>> THEN Rep(s0, V("unexpected-delivery", s0, [pid |-> e.pid, dkind |-> e.kind, ident |-> e.ident]))
+      q == SkipOpt(Q(s, e.pid), e)
+  IN IF q = <<>> THEN Rep([s0 EXCEPT !.exp = SetFn(s.exp, e.pid, q)], V("unexpected-delivery", s0, [pid |-> e.pid, dkind |-> e.kind, ident |-> e.ident]))
      ELSE LET w == Head(q)
               s1 == [s0 EXCEPT !.exp = SetFn(s.exp, e.pid, Tail(q))]
-              same == IF w.k = "pes" THEN e.kind = "pes" /\ e.len = w.len /\ e.pdg = w.pdg
-                      ELSE e.kind = w.k /\ e.ident = w.ident
-              \* a later item of the queue? (then earlier ones were lost)  - reported as "lost-or-altered"
-              ahead == w.k \in {"pat", "pmt"} /\ e.pulled # 188 * w.lastpkt
+              same == Matches(w, e)
+              ahead == w.k \in {"pat", "pmt"} /\ ~w.opt /\ e.pulled # 188 * w.lastpkt
           IN IF ~same THEN Rep(s1, V("lost-or-altered", s0, [pid |-> e.pid, wantk |-> w.k, gotk |-> e.kind, want |-> w.ident, got |-> e.ident,
                                                               wlen |-> Get(w, "len", 0), glen |-> e.len, unit |-> w.unit]))
              ELSE RepIf(ahead, s1, V("read-ahead", s0, [pid |-> e.pid, dkind |-> e.kind, pulled |-> e.pulled, lastpkt |-> w.lastpkt, unit |-> w.unit]))
 
 OnEOF(s, i) ==
   LET s0 == [s EXCEPT !.at = i]
-      left == {p \in DOMAIN s.exp : s.exp[p] # <<>>}
+      left == {p \in DOMAIN s.exp : \E k \in DOMAIN s.exp[p] : ~s.exp[p][k].opt}
   IN RepIf(left # {}, s0, V("not-delivered", s0, [pids |-> left,
              first |-> LET p == CHOOSE p \in left : TRUE IN [pid |-> p, k |-> Head(s.exp[p]).k, unit |-> Head(s.exp[p]).unit, n |-> Len(s.exp[p])]]))
 
